@@ -585,6 +585,12 @@ func (g *G) Near(v any) any {
 				return vals.NormalizeBigInt(new(big.Int).Add(b, big.NewInt(int64(g.R.Intn(3)-1))))
 			}
 			if q, ok := x.(*big.Rat); ok {
+				switch g.R.Intn(3) {
+				case 0: // same numerator, other denominator
+					return vals.NormalizeBigRat(new(big.Rat).SetFrac(q.Num(), new(big.Int).Add(q.Denom(), big.NewInt(int64(1+g.R.Intn(3))))))
+				case 1: // same denominator, other numerator
+					return vals.NormalizeBigRat(new(big.Rat).SetFrac(new(big.Int).Add(q.Num(), big.NewInt(int64(1+g.R.Intn(3)))), q.Denom()))
+				}
 				return vals.NormalizeBigRat(new(big.Rat).Add(q, big.NewRat(1, int64(1+g.R.Intn(5)))))
 			}
 			return g.Num()
